@@ -162,7 +162,12 @@ def gen_selection(rng, fft):
         idx = rng.choice(fft, size=n, replace=False)
         if rng.random() < 0.5:
             idx = np.sort(idx)
-        return (idx if kind == "array" else [int(i) for i in idx]), kind
+        if rng.random() < 0.4:
+            # centred allocations are written with negative subcarrier numbers
+            # (-K..-1 for the upper half of the fft grid)
+            idx = np.where(idx >= (fft + 1) // 2, idx - fft, idx)
+            kind += "-negative"
+        return (idx if kind.startswith("array") else [int(i) for i in idx]), kind
     if kind == "slice1":
         a = int(rng.integers(0, fft))
         b = int(rng.integers(a + 1, fft + 1))
